@@ -356,6 +356,7 @@ NOISE = {
     'comment-indented': lambda d: '   # indented comment',
     'short1': lambda d: 'x',
     'short2': lambda d: (d or ' ').join(['x', 'y']),
+    'comment2': lambda d: '# first remark # second remark',
 }
 
 
@@ -366,13 +367,22 @@ def render_rows(op):
     fmt = op['fmt']
     clean, noisy = [], []
     deco = op.get('deco', {})
+    spell = op.get('spell', {})
+
+    def ts(i, t):
+        sp = spell.get(str(i))
+        if sp == 'zero':
+            return ('-%03d' % -t) if t < 0 else '%03d' % t
+        if sp == 'plus' and t >= 0:
+            return '+%d' % t
+        return str(t)
     for i, row in enumerate(op['rows']):
         if fmt == 'snapshots':
             u, v, t, e = row
-            f = [str(u), str(v), str(t)] + ([str(e)] if e is not None else [])
+            f = [str(u), str(v), ts(i, t)] + ([ts(i, e)] if e is not None else [])
         else:
             u, v, o, t = row
-            f = [str(u), str(v), o, str(t)]
+            f = [str(u), str(v), o, ts(i, t)]
         if op.get('bad_row') == i:
             if op.get('bad_field') == 'node':
                 f[0] = 'notanumber'
@@ -383,6 +393,8 @@ def render_rows(op):
         dk = deco.get(str(i))
         if dk == 'trail-comment':
             ln = ln + ' # trailing' if d is None or d == ' ' else ln + '# trailing'
+        elif dk == 'trail-comment2':
+            ln = ln + (' ' if d is None or d == ' ' else '') + '# see #12 # and more'
         elif dk == 'pad':
             ln = '  ' + ln + '  '
         elif dk == 'pad-tab' and d != '\t':
@@ -394,6 +406,8 @@ def render_rows(op):
             txt = j.join(['x', 'y', '+'] if fmt == 'interactions' else ['x', 'y'])
         elif kind == 'five':
             txt = j.join(['x', 'y', '+', '1', 'extra']) if fmt == 'interactions' else j.join(['x', 'y'])
+        elif kind == 'commented-row':
+            txt = '#' + (j.join(['3', '4', '+', '1']) if fmt == 'interactions' else j.join(['3', '4', '1'])) + ' # disabled'
         else:
             txt = NOISE[kind](d)
         out.insert(min(pos, len(out)), txt)
